@@ -472,7 +472,7 @@ def sync_rules(text):
     if not ins or not outs or 'it' not in toks:
         return []
     zp = '::itertools::__std_iter::'
-    chain = '%s.iter().take(n)' % ins[0] + ''.join('.zip(%s.iter())' % b for b in ins[1:])
+    chain = '%s.iter().take($tk:e)' % ins[0] + ''.join('.zip(%s.iter())' % b for b in ins[1:])
     pat = ins[0]
     for b in ins[1:]:
         pat = '(%s, %s)' % (pat, b)
@@ -486,7 +486,7 @@ def sync_rules(text):
         zips = ' '.join('let iter = %sIterator::zip(iter, %s.slice().iter_mut());' % (zp, o) for o in outs)
         p2 = ('for ((%s), %s) in { let iter = %sIntoIterator::into_iter(it); %s %sIterator::map(iter, $flat:e) } '
               '{ (%s) = (%s); }' % (samples, ', '.join(outs), zp, zips, zp, ', '.join('*' + o for o in outs), samples))
-    steps = 'n'
+    steps = '($tk)'
     for x in ins + outs:
         steps = 'min_usize(%s, %s.len())' % (steps, x)
     binds = ' '.join('let %s = %s.get_ref(pos);' % (a, a) for a in ins)
